@@ -5,6 +5,7 @@ from ..astx import (calls_in, dotted, norm, src, iter_nodes, assigned_targets, a
                     const_value, is_const, parent_chain, aliases_of)
 from ..lib import (call_arg, relation, truth, other, cmp_views, core, holds_region, conditions, found_test, found_tests, path_tests, entails_empty, paths_entail_empty, eval_conditions, relation_tests, atom_key, expand_condition, mode_mismatch_conditions, cfg_nodes_with_call, node_calls, returns, raises, raised_class, stmt_assigns_attr, callee_last,
                    is_name, node_roots, guard_region, compare_parts, find_test_nodes)
+from ..lib import *      # noqa: F401,F403  (path-condition helpers)
 from ..linear import ctext, lin, Lin, slice_bounds
 from ..loader import AnalysisError
 from .. import ansifsm
